@@ -40,8 +40,10 @@ def plan(tier, seed):
 
 
 def sim_json():
+    """Attribute-level snapshot of the process-wide simulation parameters (not the objects' own to_json(), which is
+    what the design itself uses to save and restore them: a field missing there would be invisible)."""
     d = SimParams._shared_dict
-    return {'raman_params': d['raman_params'].to_json(), 'nli_params': d['nli_params'].to_json()}
+    return {k: (json.loads(json.dumps(vars(v), default=str)) if hasattr(v, '__dict__') else v) for k, v in d.items()}
 
 
 def rand_sim(rng, raman_net):
@@ -124,6 +126,12 @@ def build_inputs(rng, kind):
     G.vary_span_si(rng, ej, allow_eol=(kind == 'eol'), power_mode=False if kind == 'gain' else None)
     if kind == 'eol':
         ej['Span'][0]['EOL'] = G.pick(rng, [0.5, 1.0, 1.5])
+    if rng.random() < 0.3:
+        # amplifier types whose output VOA is chosen by the design (no stock library entry has it): the saved design
+        # then carries a VOA and an offset that the redesign must reproduce
+        for e in ej['Edfa']:
+            if e['type_variety'] in ('std_medium_gain', 'std_low_gain', 'std_high_gain') and rng.random() < 0.7:
+                e['out_voa_auto'] = True
     raman_net = kind == 'raman'
     if raman_net:
         tj = P.raman_topology(rng)
